@@ -243,6 +243,7 @@ theorem snoc_beq (p : Path) (n : Nat) : ((p ++ [n]) == p) = false := by
 /-- hypotheses on the client at the fork's parent state -/
 structure Base (c0 : Cl) : Prop where
   hasGroup : c0.hasGroup = true
+  act : c0.g.active = true
   ret : 1 ≤ c0.retention
   sec0 : alookup (epochOf c0.g.path) c0.g.secrets = none ∨ alookup (epochOf c0.g.path) c0.g.secrets = some c0.g.path
   sec1 : alookup (epochOf c0.g.path + 1) c0.g.secrets = none
@@ -272,15 +273,21 @@ structure Sib (c0 : Cl) (e : Ev) : Prop where
   foreign : (e.sender == c0.id) = false
   ts : e.ts ≠ 0
   cipher : e.cipher ∉ c0.g.consumed
+  tag : e.tag = c0.g.recNid           -- published under the id in force at the parent state
+  nid : ∀ b sw, e.kind = .commit b sw → (applyBody (ensureSecret c0.g) b).nid = c0.g.recNid   -- and it does not rotate it
+  me : ∀ b sw, e.kind = .commit b sw → removesMe c0.id b sw = false                          -- nor removes the receiver
 
 /-- a commit created in the parent state (foreign sibling or the client's own) -/
 structure Com (c0 : Cl) (e : Ev) : Prop where
   path : e.path = c0.g.path
   kind : ∃ b sw, e.kind = .commit b sw
   ts : e.ts ≠ 0
+  tag : e.tag = c0.g.recNid
+  nid : ∀ b sw, e.kind = .commit b sw → (applyBody (ensureSecret c0.g) b).nid = c0.g.recNid
+  me : ∀ b sw, e.kind = .commit b sw → removesMe c0.id b sw = false
 
 theorem Sib.com {c0 : Cl} {e : Ev} (h : Sib c0 e) : Com c0 e :=
-  ⟨h.path, by obtain ⟨b, sw, hk, _⟩ := h.kind; exact ⟨b, sw, hk⟩, h.ts⟩
+  ⟨h.path, by obtain ⟨b, sw, hk, _⟩ := h.kind; exact ⟨b, sw, hk⟩, h.ts, h.tag, h.nid, h.me⟩
 
 /-- the state after applying sibling `a` on the parent state -/
 def childG (c0 : Cl) (a : Ev) : GState := syncRec (ensureSecret (mergeCommit c0.maxPast (gP c0) a))
@@ -305,6 +312,15 @@ theorem childG_facts (c0 : Cl) (hb : Base c0) (a : Ev) (hs : Com c0 a) :
   simp only [syncRec, hp, hsec, epochOf_snoc]
   refine ⟨trivial, by simp [alookup_ainsert_self], ?_, trivial⟩
   rw [alookup_ainsert_ne _ _ _ _ (by omega)]; exact gP_sec0 c0 hb
+
+/-- a commit that does not rotate the nostr group id leaves the id in force where it was -/
+theorem childG_recNid (c0 : Cl) (a : Ev) (hs : Com c0 a) : (childG c0 a).recNid = c0.g.recNid := by
+  obtain ⟨b, sw, hk⟩ := hs.kind
+  have h := hs.nid b sw hk
+  have hd := ensureSecret_data (mergeCommit c0.maxPast (gP c0) a)
+  simp only [childG, syncRec, hd]
+  simp only [mergeCommit, hk, gP]
+  exact h
 
 theorem childG_stable (c0 : Cl) (hb : Base c0) (a : Ev) (hs : Com c0 a) :
     ensureSecret (childG c0 a) = childG c0 a ∧ syncRec (childG c0 a) = childG c0 a := by
@@ -360,28 +376,28 @@ def consume (c : Cl) (x : Nat) : Cl := { c with g := { c.g with consumed := x ::
 /-! ## `process_message` on a commit: which handler runs -/
 
 theorem step1_commit_same (retry : Cl → Option (Cl × Res)) (nx : Nat) (c : Cl) (e : Ev) (b : Body) (sw : List Nat)
-    (hg : c.hasGroup = true) (ho : outerOpens (withSecret c).g e = true) (hk : e.kind = .commit b sw)
+    (hg : routes c e = true) (hact : c.g.active = true) (ho : outerOpens (withSecret c).g e = true) (hk : e.kind = .commit b sw)
     (hep : epochOf e.path = epochOf c.g.path) (hf : (e.sender == c.id) = false)
     (hc : e.cipher ∉ c.g.consumed) :
     step1 retry nx c e = processCommit (consume (withSecret c) e.cipher) e b sw := by
   unfold step1
   simp only [consume]
-  simp [hg, ho, hk, hep, hf, hc]
+  simp [hg, hact, ho, hk, hep, hf, hc]
 
 theorem step1_commit_wrong (retry : Cl → Option (Cl × Res)) (nx : Nat) (c : Cl) (e : Ev) (b : Body) (sw : List Nat)
-    (hg : c.hasGroup = true) (ho : outerOpens (withSecret c).g e = true) (hk : e.kind = .commit b sw)
+    (hg : routes c e = true) (hact : c.g.active = true) (ho : outerOpens (withSecret c).g e = true) (hk : e.kind = .commit b sw)
     (hep : epochOf e.path ≠ epochOf c.g.path) :
     step1 retry nx c e = wrongEpochCommit retry (withSecret c) e (epochOf e.path) := by
   unfold step1
-  simp [hg, ho, hk, hep]
+  simp [hg, hact, ho, hk, hep]
 
 theorem processCommit_ok (c : Cl) (e : Ev) (b : Body) (sw : List Nat)
-    (ha : (isAdmin c.g e.sender || isPureSelfUpdate b sw) = true) :
+    (ha : (isAdmin c.g e.sender || isPureSelfUpdate b sw) = true) (hme : removesMe c.id b sw = false) :
     processCommit c e b sw =
       (setRec { mgrCreate c (epochOf c.g.path) e with g := syncRec (ensureSecret (mergeCommit c.maxPast c.g e)) } e.n
         { state := 2, epoch := some (epochOf (syncRec (ensureSecret (mergeCommit c.maxPast c.g e))).path), hasGroup := true, mid := none }, .commit) := by
   unfold processCommit
-  simp [ha, mgrCreate]
+  simp [ha, hme, mgrCreate]
 
 theorem deliverOnce_norec (retry : Cl → Option (Cl × Res)) (nx : Nat) (c : Cl) (e : Ev) (h : getRec c e.n = none) :
     deliverOnce retry nx c e = step1 retry nx c e := by simp [deliverOnce, h]
@@ -421,6 +437,47 @@ structure CForm (c0 : Cl) (a : Ev) (c : Cl) : Prop where
   g : c.g = wc (childG c0 a) c.g.consumed
   mgr : ∃ k, c.mgr = c0.mgr.drop k ++ [snapOf c0 a c.g.consumed]
 
+/-- both shapes are active (neither `ensureSecret`, `mergeCommit` nor `syncRec` touches the flag) -/
+theorem pform_active (c0 c : Cl) (hb : Base c0) (hf : PForm c0 c) : c.g.active = true := by
+  have := congrArg GState.active hf.g
+  rw [ensureSecret_active] at this
+  rw [this]
+  show (ensureSecret c0.g).active = true
+  rw [ensureSecret_active]; exact hb.act
+
+theorem childG_active (c0 : Cl) (hb : Base c0) (a : Ev) : (childG c0 a).active = true := by
+  simp only [childG, syncRec, ensureSecret_active]
+  have : (mergeCommit c0.maxPast (gP c0) a).active = (gP c0).active := by
+    unfold mergeCommit
+    split
+    · rename_i b sw _
+      cases b <;> rfl
+    · rfl
+  rw [this]
+  show (ensureSecret c0.g).active = true
+  rw [ensureSecret_active]; exact hb.act
+
+theorem cform_active (c0 : Cl) (hb : Base c0) (a : Ev) (c : Cl) (hf : CForm c0 a c) : c.g.active = true := by
+  rw [hf.g]; exact childG_active c0 hb a
+
+/-- at the parent shape an event tagged with the parent's id is routed -/
+theorem pform_routes (c0 c : Cl) (e : Ev) (hf : PForm c0 c) (ht : e.tag = c0.g.recNid) : routes c e = true := by
+  have h1 : c.g.recNid = c0.g.recNid := by
+    have := congrArg GState.recNid hf.g
+    rw [ensureSecret_recNid] at this
+    rw [this]
+    show (ensureSecret c0.g).recNid = _
+    exact ensureSecret_recNid _
+  simp [routes, hf.hg, ht, h1]
+
+/-- at the child of a commit that keeps the id, too -/
+theorem cform_routes (c0 : Cl) (a : Ev) (c : Cl) (e : Ev) (hf : CForm c0 a c) (ha : Com c0 a) (ht : e.tag = c0.g.recNid) :
+    routes c e = true := by
+  have h1 : c.g.recNid = c0.g.recNid := by
+    rw [hf.g]
+    exact childG_recNid c0 a ha
+  simp [routes, hf.hg, ht, h1]
+
 def rec2 (c0 : Cl) : Rec := { state := 2, epoch := some (epochOf c0.g.path + 1), hasGroup := true, mid := none }
 def rec3 (c0 : Cl) : Rec := { state := 3, epoch := some (epochOf c0.g.path + 1), hasGroup := true, mid := none }
 
@@ -457,12 +514,14 @@ theorem apply_parent (c0 : Cl) (hb : Base c0) (retry : Cl → Option (Cl × Res)
     show ({ (withSecret c).g with consumed := e.cipher :: (withSecret c).g.consumed } : GState) = _
     rw [hwg]; rfl
   rw [deliverOnce_norec _ _ _ _ hr,
-    step1_commit_same retry nx c e b sw hf.hg (by rw [hwg, outerOpens_wc]; exact outerOpens_parent c0 hb e hs.path) hk
+    step1_commit_same retry nx c e b sw (pform_routes c0 c e hf hs.tag) (pform_active c0 c hb hf) (by rw [hwg, outerOpens_wc]; exact outerOpens_parent c0 hb e hs.path) hk
       (by rw [hs.path, hpath]) (by rw [hf.id]; exact hs.foreign) hc,
     processCommit_ok _ _ _ _ (by
       rw [hcg]
       have : isAdmin (wc (gP c0) (e.cipher :: c.g.consumed)) e.sender = isAdmin c0.g e.sender := by simp [isAdmin, gP, wc]
-      rw [this]; exact hadm)]
+      rw [this]; exact hadm) (by
+      show removesMe c.id b sw = false
+      rw [hf.id]; exact hs.me b sw hk)]
   obtain ⟨k, hk'⟩ := hf.mgr
   have hchild : syncRec (ensureSecret (mergeCommit (consume (withSecret c) e.cipher).maxPast (consume (withSecret c) e.cipher).g e))
       = wc (childG c0 e) (e.cipher :: c.g.consumed) := by
@@ -581,7 +640,7 @@ theorem child_wrong (c0 : Cl) (hb : Base c0) (retry : Cl → Option (Cl × Res))
   have hst := (childG_stable c0 hb a ha).1
   have hw : withSecret c = c := withSecret_eq c (by rw [hf.g, ensureSecret_wc, hst])
   have hpath : c.g.path = c0.g.path ++ [a.cipher] := by rw [hf.g]; exact (childG_facts c0 hb a ha).1
-  rw [step1_commit_wrong retry nx c e b sw hf.hg (by rw [hw, hf.g, outerOpens_wc]; exact outerOpens_child c0 hb a e ha hs.path) hk
+  rw [step1_commit_wrong retry nx c e b sw (cform_routes c0 a c e hf ha hs.tag) (cform_active c0 hb a c hf) (by rw [hw, hf.g, outerOpens_wc]; exact outerOpens_child c0 hb a e ha hs.path) hk
     (by rw [hs.path, hpath, epochOf_snoc]; omega), hw, hs.path]
 
 /-- situation 2b: at child `a`, a worse sibling gets a Failed record; nothing else changes -/
@@ -1032,14 +1091,17 @@ structure OwnSib (c0 : Cl) (o : Ev) : Prop where
   ts : o.ts ≠ 0
   pending : c0.g.pending = some o
   record : getRec c0 o.n = some (rec0 c0)
+  tag : o.tag = c0.g.recNid
+  nid : ∀ b sw, o.kind = .commit b sw → (applyBody (ensureSecret c0.g) b).nid = c0.g.recNid
+  me : ∀ b sw, o.kind = .commit b sw → removesMe c0.id b sw = false
 
-theorem OwnSib.com {c0 : Cl} {o : Ev} (h : OwnSib c0 o) : Com c0 o := ⟨h.path, h.kind, h.ts⟩
+theorem OwnSib.com {c0 : Cl} {o : Ev} (h : OwnSib c0 o) : Com c0 o := ⟨h.path, h.kind, h.ts, h.tag, h.nid, h.me⟩
 
 theorem rbRec_rec0 (c0 : Cl) : rbRec (epochOf c0.g.path) (rec0 c0) = rec0 c0 := by
   simp [rbRec, rbRec1, rbRec2, rec0]
 
 theorem step1_commit_own (retry : Cl → Option (Cl × Res)) (nx : Nat) (c : Cl) (e p : Ev) (b : Body) (sw : List Nat)
-    (hg : c.hasGroup = true) (ho : outerOpens (withSecret c).g e = true) (hk : e.kind = .commit b sw)
+    (hg : routes c e = true) (hact : c.g.active = true) (ho : outerOpens (withSecret c).g e = true) (hk : e.kind = .commit b sw)
     (hep : epochOf e.path = epochOf c.g.path) (hf : (e.sender == c.id) = true) (hp : c.g.pending = some p) :
     step1 retry nx c e =
       (setRec { mgrCreate (withSecret c) (epochOf c.g.path) e with
@@ -1047,7 +1109,7 @@ theorem step1_commit_own (retry : Cl → Option (Cl × Res)) (nx : Nat) (c : Cl)
         { state := 2, epoch := some (epochOf (syncRec (ensureSecret (mergeCommit c.maxPast (withSecret c).g p))).path), hasGroup := true, mid := none }, .commit) := by
   have hmp : (withSecret c).maxPast = c.maxPast := rfl
   unfold step1
-  simp [hg, ho, hk, hep, hf, hp, mgrCreate, hmp]
+  simp [hg, hact, ho, hk, hep, hf, hp, mgrCreate, hmp]
 
 /-- at the parent state the own commit's echo merges the pending commit (after taking the snapshot);
     no ciphertext is consumed (openmls merges its own pending commit without decrypting) -/
@@ -1067,7 +1129,7 @@ theorem apply_parent_own (c0 : Cl) (hb : Base c0) (retry : Cl → Option (Cl × 
     show (gP c0).pending = _
     rw [gP, (ensureSecret_fields c0.g).2.2.2.2.2.1, hs.pending]
   rw [deliverOnce_rec2 _ _ _ _ r hr hst,
-    step1_commit_own retry nx c o o b sw hf.hg (by rw [hwg, outerOpens_wc]; exact outerOpens_parent c0 hb o hs.path) hk
+    step1_commit_own retry nx c o o b sw (pform_routes c0 c o hf hs.tag) (pform_active c0 c hb hf) (by rw [hwg, outerOpens_wc]; exact outerOpens_parent c0 hb o hs.path) hk
       (by rw [hs.path, hpath]) (by rw [hf.id]; exact hs.own) hpend]
   obtain ⟨k, hk'⟩ := hf.mgr
   have hchild : syncRec (ensureSecret (mergeCommit c.maxPast (withSecret c).g o)) = wc (childG c0 o) c.g.consumed := by
